@@ -294,3 +294,6 @@ pub use self::metadata::*;
 
 mod recorder;
 pub use self::recorder::*;
+
+#[cfg(metrics_verif)]
+pub mod verif;
